@@ -379,3 +379,15 @@ Proof.
   cbv zeta. rewrite Ecnt. rewrite !gen_seg_of_all by assumption.
   apply (contiguous L ltac:(lia) i Hi).
 Qed.
+
+(* final round: the two side conditions of seg_roundtrip_rev (2s+4 < 2^64, slog s + L < 64) follow from the fit of the exact index;
+   GetItemCount itself is shown not to wrap *)
+Theorem seg_roundtrip_rev_strong L s j : 0 <= L < 64 -> 0 <= s -> 0 <= j < cnt_of L s -> idx_of L s j < 2 ^ 64 - 2 ^ L ->
+  G.GetItemCount L s = cnt_of L s /\ G.GetIndex L s j = idx_of L s j /\ G.GetSegItemIndexes L (G.GetIndex L s j) = (s, j).
+Proof.
+  intros HL Hs Hj Hfit.
+  destruct (slot_fits L s j HL Hs Hj Hfit) as (Hk & Hk2 & Hs64 & _).
+  assert (Hkl : slog s + L < 64) by lia.
+  split; [apply gen_cnt_of; assumption|].
+  apply seg_roundtrip_rev; try assumption; try lia. rewrite gen_cnt_of by assumption. lia.
+Qed.
